@@ -249,10 +249,13 @@ def gen_call(r, case):
             if n and n not in [x[0] for x in kwargs]:
                 kwargs.append([n, gen_value(r, None, used)])
         elif m == "unknown":
-            kwargs.append([r.choice(free), gen_value(r, None, used)])
+            n = r.choice(free)
+            if n not in [x[0] for x in kwargs]:      # kwargs is a dict: a name occurs once
+                kwargs.append([n, gen_value(r, None, used)])
         elif m == "past_dep":
             names_kw = {x[0] for x in kwargs}
             args = args + [gen_value(r, p["ann"], used) for p in pos[len(args):] if p["name"] not in names_kw][:2]
+    assert len({x[0] for x in kwargs}) == len(kwargs)
     case["args"], case["kwargs"] = args, kwargs
 
 
